@@ -225,17 +225,25 @@ def _judge_ps_schedule(ctx, pid, ptraces, cases):
         if r["violated"]:
             ctx.violation(f"{pid}:spec:SweepPS:{r['violated']}", f"SweepPS violates {r['violated']}", {"tlc": (r.get("error_text") or "")[:2000]})
         for e in r["emitted"]:
-            sched[(e["n"], e["start"])] = [list(x[:2]) if x[0] in ("ev1", "ev0") else list(x) for x in e["events"]]
+            sched[("ps", e["n"], e["start"])] = [["ev", x[1]] if x[0] in ("ev1", "ev0") else list(x) for x in e["events"]]
+        cfg = tlc.make_cfg(constants=dict(N=N), spec="Spec", invariants=["EnvFresh", "NetTime", "EmitSchedule"])
+        r = tlc.run("SweepPS2", cfg, mode="emit", vacuity=True, timeout=600)
+        ctx.add_tlc(r, f"SweepPS2 N={N}: two-site sweep, EnvFresh + NetTime + schedule emission")
+        if r["violated"]:
+            ctx.violation(f"{pid}:spec:SweepPS2:{r['violated']}", f"SweepPS2 violates {r['violated']}", {"tlc": (r.get("error_text") or "")[:2000]})
+        for e in r["emitted"]:
+            sched[("ps2", e["n"], e["start"])] = [list(x) for x in e["events"]]
     if not ptraces:
         raise MachineryError("no projector-splitting call was recorded")
     for t in ptraces:
         ctx.traces(1)
-        exp = sched.get((t["n"], t["start"]))
+        exp = sched.get((t["scheme"], t["n"], t["start"]))
         if exp is None:
-            raise MachineryError(f"no SweepPS schedule for {(t['n'], t['start'])}")
-        if t["events"] != exp:
-            first = next((i for i, (a, b) in enumerate(zip(t["events"], exp)) if a != b), min(len(t["events"]), len(exp)))
-            ctx.drift(f"{pid}:schedule:ps", f"recorded one-site sweep differs from the SweepPS schedule at event {first}: got {t['events'][first:first + 3]}, expected {exp[first:first + 3]}",
+            raise MachineryError(f"no SweepPS schedule for {(t['scheme'], t['n'], t['start'])}")
+        got = [e for e in t["events"] if t["scheme"] == "ps2" or e[0] != "upd"]
+        if got != exp:
+            first = next((i for i, (a, b) in enumerate(zip(got, exp)) if a != b), min(len(got), len(exp)))
+            ctx.drift(f"{pid}:schedule:{t['scheme']}", f"recorded sweep differs from the Sweep{t['scheme'].upper()} schedule at event {first}: got {got[first:first + 3]}, expected {exp[first:first + 3]}",
                           {"trace": t, "case": cases[t["idx"]]})
     ctx.notes["ps_schedule_traces"] = len(ptraces)
 
